@@ -196,7 +196,43 @@ def run(ctx):
                     okidx = idx in ev_anchor_ops or (idx.endswith(".id") and (idx[:-3] + ".buf") in stored)
                     ctx.check(okidx, "RECORD", "C02:RECORD:store-index:%s#%d" % (f.name, st),
                               "buffer stored at the node's own anchor id (%s)" % idx, "anchor buffer stored at `%s`, which is not the anchor id of the recorded node" % idx, config, ctx.where(f, b))
-        ctx.floor("RECORD.stores", st, 2, config)
+        # (the floor counts buffer stores however they are written — see below)
+        # STORE-UNCONDITIONAL: once a node is known to be anchored its buffer *is* stored — whatever the store is written like
+        # (indexing after ensuring capacity, or through a helper that hands out the slot): the store is not an `if let Some(slot)`
+        # whose other arm drops the buffer silently, which turns a later, valid alias into "unknown anchor".
+        def buffer_stores(f):
+            out = []
+            for sb, i, s_ in f.stmts():
+                if s_["k"] == "assign" and s_["p"]["pr"]:
+                    with f.deep():
+                        v = f.sym_rvalue(s_["rv"])
+                    if sym_contains(v, lambda x: x[0] == "call" and last_seg(x[1]) == "into_boxed_slice"):
+                        out.append(sb)
+            return out
+        bd = fx.fn(LE + "::bump_depth_on_end")
+        S = buffer_stores(bd)
+        pops = [b for b, t in bd.calls() if last_seg(fx.callee(t)) == "pop" and render(bd.sym_operand(t["args"][0])).endswith("rec_stack")]
+        from ..rules import err_return_blocks
+        okst = bool(S) and bool(pops)
+        for pb in pops:
+            nxt = bd.blocks[pb]["term"].get("t")
+            if nxt is None or not must_pass(bd, [nxt], S + list(err_return_blocks(bd)), to_blocks=list(bd.return_blocks()) + [pb]):
+                okst = False
+        ctx.check(okst, "RECORD", "C02:RECORD:store-unconditional:bump_depth_on_end", "a finished anchored container's buffer is stored on every path that closed its frame",
+                  "bump_depth_on_end can close a recording frame without storing its buffer (the store is conditional): an alias to that anchor then fails with `unknown anchor` although the anchor is defined", config, ctx.where(bd))
+        Sn = buffer_stores(ni)
+        nz = [c for c in compares(ni) if c["op"] in ("Ne", "Eq") and c["rr"] == "0" and c["rl"].endswith("anchor_id")]
+        pushes = [b for b, t in ni.calls() if last_seg(fx.callee(t)) == "push" and render(ni.sym_operand(t["args"][0])).endswith("rec_stack")]
+        nsc = 0
+        for c in nz:
+            anchored = c["t"] if c["op"] == "Ne" else c["f"]
+            if not (set(Sn) & ni.reachable([anchored], avoid=pushes)):
+                continue  # a container arm: the frame push is its obligation (RECORD:seed)
+            nsc += 1
+            ctx.check(must_pass(ni, [anchored], Sn + pushes + list(err_return_blocks(ni))), "RECORD", "C02:RECORD:store-unconditional:next_impl#%d" % nsc, "an anchored scalar's one-event buffer is stored on every path of the anchored edge",
+                      "next_impl can deliver an anchored scalar without storing its buffer (the store is conditional)", config, ctx.where(ni, c["block"]))
+        ctx.floor("RECORD.unconditional-scalar-stores", nsc, 1, config)
+        ctx.floor("RECORD.stores", len(S) + len(Sn), 2, config)
         # ---- TRANSPARENT: attaching an anchor never changes the node's own value — the scalar event built from a parser
         # scalar takes value, style and tag from the parser event unconditionally (no rewrite that depends on the anchor)
         nt = 0
